@@ -158,17 +158,6 @@ Proof.
     + replace (is_nil (a ++ [x])) with false by (destruct a; reflexivity). reflexivity.
 Qed.
 
-(* ---- lstat of a rendered path ---- *)
-Lemma resolve_render c f cs fl : Forall nm cs -> Forall nonul cs -> cs <> [] ->
-  resolve c f (render cs) fl = walk rfuel f (c_root c) (c_root c) cs fl 0.
-Proof.
-  intros H Hnul Hne. unfold resolve. unfold render at 1.
-  apply has_nul_render in Hnul. fold (render cs). rewrite Hnul. unfold render at 1.
-  rewrite ends_with_sep_render by auto. rewrite pcs_render by auto.
-  unfold render. cbn [is_abs]. rewrite N.eqb_refl. rewrite orb_false_r.
-  destruct (walk rfuel f (c_root c) (c_root c) cs fl 0); reflexivity.
-Qed.
-
 Local Opaque rfuel.
 
 Definition lstat_not_link (r : result) : Prop :=
